@@ -93,6 +93,8 @@ PROFILES = {
                   steps=50, w_advance=5, usage=True),
     "proto": dict(apps=["a1"], sides=["s1", "s2"], names=["1", "x"], client_mbox=["m1"], steps=50,
                   w_malformed=6.0, extra_keys=True),
+    "alloc": dict(apps=["a1", "a2"], sides=["s1", "s2"], names=["1", "2", "3", "10", "x", "007"], client_mbox=["m1"],
+                  steps=50, w_allocate=6),
 }
 
 # ---------------------------------------------------------------------------
@@ -115,6 +117,20 @@ PLAN = {
               ["core", "apps"], ["nameplate", "apps", "crowd"], ["P07"]),
     "C08": _p(["C08.a", "C08.b", "C08.c", "C08.d"], [("core", 9, 11)], ["core"],
               ["mailbox", "nameplate"], ["P08"]),
+    "C04": _p(["C04.a", "C04.b", "C04.c"], [("alloc", 8, 10), ("allocnl", 8, 10)], ["core"],
+              ["alloc", "nameplate"], ["P04"]),
+    "C09": _p(["C09.a", "C09.b"], [("crash", 8, 10), ("crashu", 8, 10)], ["crash", "crashu"],
+              ["crash", "usage", "mailbox"], ["P09"]),
+    "C10": _p(["C10.a", "C10.b", "C10.c", "C13.c"], [("crash", 8, 10), ("crashu", 8, 10)], ["crash", "crashu"],
+              ["crash"], ["P10", "P13"]),
+    "C12": _p(["C12.a", "C12.b"], [("time", 10, 13), ("time2", 9, 12)], ["time", "time2"],
+              ["time", "fanout"], ["P12"]),
+    "C13": _p(["C13.a", "C13.b", "C13.c"], [("time", 10, 13), ("time2", 9, 12)], ["time", "time2"],
+              ["time", "crowd", "mailbox"], ["P13"]),
+    "C15": _p(["C15.a", "C15.b", "C15.c"], [("usage", 9, 11), ("usage7", 9, 11)], ["usage", "usage7"],
+              ["usage"], ["P15"]),
+    "C16": _p(["C16.a", "C16.b", "C16.c"], [("usage", 9, 11), ("usage7", 9, 11)], ["usage", "usage7"],
+              ["usage"], ["P16"]),
     "C17": _p(["C17.a", "C17.b", "C17.c", "C17.d", "C17.e", "C17.f"], [("proto", 7, 9), ("apps", 9, 11)],
               ["proto"], ["proto", "apps"], ["P17"]),
 }
